@@ -6,6 +6,16 @@ import os
 VERIF = os.path.dirname(os.path.dirname(os.path.abspath(__file__)))
 
 CHECKS = {
+    "C01": dict(
+        category="model_checking", design_ref="DESIGN.md 5/C01",
+        text="LockFile.tla models RemoteLockFile at the grain of mutating backend calls and deciding read blocks (acquire, stale takeover, release retry loop, heartbeat "
+             "writer, staleness ticks, death); TLC checks exhaustively that the protocol without the named deviations satisfies mutual exclusion / release safety / single "
+             "takeover, and enumerates every distinct violating state of the protocol as coded with its schedule. Those schedules and seeded random ones (2..4 contenders, "
+             "single-backend-call granularity) are forced on real lock objects through a gate at the afero.Fs boundary on MemMapFs and the OS filesystem; the recorded "
+             "executions are judged by TLC (LockTrace.tla on the shared monitor LockMonitor.tla), which assigns causal signatures.",
+        note="Trusted: TLC, the gate's attribution of backend calls to contenders (API function names on the call stack), model time for staleness (Stat re-stamped by the gate). "
+             "Known findings (protocol-level, see known_findings.json) are reported as KNOWN-FINDING; any other signature is a violation.",
+        technique="TLA+ spec + TLC exhaustive; TLC-generated schedules forced on real code through an afero.Fs gate; TLC judges recorded traces"),
     "C10": dict(
         category="model_checking", design_ref="DESIGN.md 5/C10",
         text="The statement (Clamp over limb-encoded integers, ranges derived from bit widths) is checked by TLC for range, identity, idempotence, "
